@@ -182,7 +182,8 @@ def check_cpp(model, cm, proto, rng, quick, stats, viols, seedinfo):
     cuts = sorted(set(cuts) | {k for k in (sw.BUF, 2 * sw.BUF) if k < len(data)})
     runs = [{"proto": proto.name, "op": "relay", "in_fmt": "binary", "out_fmt": "ndjson", "input": 0, "batch": [1] * nb}]
     for p in cuts:
-        runs.append({"proto": proto.name, "op": "relay", "in_fmt": "binary", "out_fmt": "ndjson", "input": 0, "batch": [1] * nb, "cut": p,
+        # mostly one item per read; now and then batch reads, which must not hand out a batch that the end of input cut short
+        runs.append({"proto": proto.name, "op": "relay", "in_fmt": "binary", "out_fmt": "ndjson", "input": 0, "batch": [rng.choice([1, 1, 1, 2, 3, 7, 64])] * nb, "cut": p,
                      "chunk_mode": rng.choice([0, 0, 3, 2] if len(data) < 5000 else [0, 3]), "chunk_seed": rng.randint(1, 1 << 30)})
     results = cm.run_plan([data], runs, timeout=240)
     stats["runs"] = stats.get("runs", 0) + len(runs)
@@ -206,6 +207,7 @@ def check_cpp(model, cm, proto, rng, quick, stats, viols, seedinfo):
             continue
         d = _doc(model, proto, vals, parts, p, "whole", "binary", seedinfo)
         d["lang"] = "cpp"
+        d["batch"] = runs[1 + cuts.index(p)]["batch"]
         if res.get("crashed"):
             viols.append(({"class": "reader_hangs_on_truncated_stream" if res.get("hang") else "reader_crashed_on_truncated_stream", "lang": "cpp", "format": "binary", "position_class": cls}, d))
             return
@@ -301,7 +303,7 @@ def check_cpp_ndjson(model, cm, proto, rng, quick, stats, viols, seedinfo):
     nb = cm.copyto[proto.name]
     runs = [{"proto": proto.name, "op": "relay", "in_fmt": "ndjson", "out_fmt": "ndjson", "input": 0, "batch": [1] * nb}]
     for p in cuts:
-        runs.append({"proto": proto.name, "op": "relay", "in_fmt": "ndjson", "out_fmt": "ndjson", "input": 0, "batch": [1] * nb, "cut": p,
+        runs.append({"proto": proto.name, "op": "relay", "in_fmt": "ndjson", "out_fmt": "ndjson", "input": 0, "batch": [rng.choice([1, 1, 1, 2, 3, 7, 64])] * nb, "cut": p,
                      "chunk_mode": rng.choice([0, 0, 3, 2]), "chunk_seed": rng.randint(1, 1 << 30)})
     results = cm.run_plan([raw], runs, timeout=240)
     stats["runs"] = stats.get("runs", 0) + len(runs)
@@ -324,6 +326,7 @@ def check_cpp_ndjson(model, cm, proto, rng, quick, stats, viols, seedinfo):
             continue
         d = _doc(model, proto, vals, None, p, "whole", "ndjson", seedinfo)
         d["lang"] = "cpp"
+        d["batch"] = runs[1 + cuts.index(p)]["batch"]
         if res.get("crashed"):
             viols.append(({"class": "reader_hangs_on_truncated_stream" if res.get("hang") else "reader_crashed_on_truncated_stream", "lang": "cpp", "format": "ndjson", "position_class": cls}, d))
             return
@@ -417,7 +420,7 @@ def replay_doc(doc, ybin, root):
         if doc.get("lang") == "cpp" and doc["format"] == "ndjson":
             cm = C.CppModel(model.dir)
             raw = codec.encode_ndjson(proto, ns, model.schema(proto), vals).encode("utf-8")
-            res = cm.run_plan([raw], [{"proto": proto.name, "op": "relay", "in_fmt": "ndjson", "out_fmt": "ndjson", "input": 0, "batch": [1] * cm.copyto[proto.name], "cut": doc["cut"]}])[0]
+            res = cm.run_plan([raw], [{"proto": proto.name, "op": "relay", "in_fmt": "ndjson", "out_fmt": "ndjson", "input": 0, "batch": doc.get("batch") or [1] * cm.copyto[proto.name], "cut": doc["cut"]}])[0]
             if res.get("crashed"):
                 return cls.startswith("reader_"), res.get("stderr", "")[-300:]
             if res["ok"]:
@@ -428,7 +431,7 @@ def replay_doc(doc, ybin, root):
         if doc.get("lang") == "cpp":
             cm = C.CppModel(model.dir)
             data = codec.encode_stream(proto, ns, model.schema(proto), vals, parts)
-            res = cm.run_plan([data], [{"proto": proto.name, "op": "relay", "in_fmt": "binary", "out_fmt": "ndjson", "input": 0, "batch": [1] * cm.copyto[proto.name], "cut": doc["cut"]}])[0]
+            res = cm.run_plan([data], [{"proto": proto.name, "op": "relay", "in_fmt": "binary", "out_fmt": "ndjson", "input": 0, "batch": doc.get("batch") or [1] * cm.copyto[proto.name], "cut": doc["cut"]}])[0]
             if res.get("crashed"):
                 return cls.startswith("reader_"), res.get("stderr", "")[-300:]
             if res["ok"]:
